@@ -180,6 +180,14 @@ func runC17(r *Run) {
 			}
 		}
 	}
+
+	r.Rule("C17.R7")
+	c17RootsUnknownOnFailure(r)
+	// goroutines per log / per group must not share result variables (rule set C12.R10)
+	r.Shared("C17.R8", func() {
+		r.Rule("C12.R10")
+		c12GoSharedWrites(r, "submission", "ctpolicy")
+	})
 }
 
 // paramOfType: the index (receiver = 0, as in origin terms) of the only parameter of fn whose
